@@ -18,6 +18,7 @@ func init() {
 			"(D2) anonymise once, before both: the loaded anonymiser is applied to the address slice before both decisions and both records, the address handed to the log is that same slice, and the address string used for the client lookups and the statistics is computed from it after the call; (D3) the read side re-checks the ignore list and the client flag before returning a file entry and applies the anonymiser it is given before serialising; (D4) both configuration handlers install the anonymiser exactly when anonymisation is switched on; " +
 			"(D5) mask widths: the anonymiser zeroes the constant regions [2:4) of the 4-byte form obtained from To4 and [6:16) of the 16-byte form. " +
 			"(D6) the client cache of a log search, which memoises the per-client ignore decision, is a map made by that search and never stored in a field or package variable. " +
+			"(D7) the record the query log uses to decide whether a stored entry is shown: on every path of clientOrArtificial on which a persistent client was found, its IgnoreQueryLog flag is copied into the record, whatever else is known about the address. " +
 			"Not decided: ignore-pattern semantics, case and trailing-dot normalisation, entries recorded before an ignore-list change.",
 		RuleText:    "Who-may-call enumeration, CFG edge guards, value identity and must-pass ordering on SSA, constant slice bounds.",
 		Assumptions: []string{"aghnet.IPMut stores/loads the function atomically", "net.IP.To4 returns the 4-byte form sharing memory with the original (stdlib)"},
@@ -208,28 +209,148 @@ func runC08(c *Ctx) {
 	c08Switch(c)
 	c08Mask(c)
 	c08ClientCache(c)
+	c08ReadSideFlag(c)
+}
+
+// c08ReadSideFlag: D7 — the client record the query log works with when it
+// decides whether to show a stored entry comes from clientOrArtificial; when a
+// persistent client was found its IgnoreQueryLog flag is carried over on every
+// path, whatever else is known about the address.
+func c08ReadSideFlag(c *Ctx) {
+	p, r := c.P, c.R
+	fn := p.Fn("(*home.clientsContainer).clientOrArtificial")
+	if fn == nil {
+		r.Undecided("C08-D7", "clientOrArtificial", "-", "anchor not found")
+		return
+	}
+	isFound := func(v ssa.Value) bool {
+		return core.IsCallResult(core.ResolveCellLoad(v), 1, "(*client.Storage).FindLoose")
+	}
+	// edges on which no persistent client was found
+	notFound, n := core.CondEdges(fn, func(at core.Atom) (bool, bool) {
+		if at.Op == token.ILLEGAL && isFound(at.Base) {
+			return true, false
+		}
+		return false, false
+	})
+	carries := func(in ssa.Instruction) bool {
+		st, ok := in.(*ssa.Store)
+		if !ok {
+			return false
+		}
+		fr, ok := core.FieldOfAddr(st.Addr)
+		if !ok || fr.Type != "querylog.Client" || fr.Field != "IgnoreQueryLog" {
+			return false
+		}
+		src, _, isF := core.LoadedField(core.ResolveCellLoad(st.Val))
+		return isF && src.Type == "client.Persistent" && src.Field == "IgnoreQueryLog"
+	}
+	nCarry := 0
+	for _, b := range fn.Blocks {
+		for _, in := range b.Instrs {
+			if carries(in) {
+				nCarry++
+			}
+		}
+	}
+	found, tr, _ := core.Reach(core.Query{From: []core.Point{core.Entry(fn)}, Target: core.IsReturn, Avoid: carries, AvoidEdges: notFound})
+	r.Check(n > 0 && nCarry > 0 && !found, "C08-D7", "found-client-keeps-ignore-flag", p.FnPos(fn),
+		"every path on which a persistent client was found copies its IgnoreQueryLog flag into the record given to the query log",
+		"a persistent client can be reported to the query log without its IgnoreQueryLog flag (e.g. when a runtime record exists for the address too): its stored entries are shown although the client is to be ignored", p.TraceString(tr))
 }
 
 func c08Anonymise(c *Ctx, pq *ssa.Function) {
 	p, r := c.P, c.R
-	// the anonymiser call: dynamic call whose function value is the result of (*aghnet.IPMut).Load
-	var anonCall *ssa.Call
-	for _, call := range core.Calls(pq) {
-		if core.Callee(call.Common) != nil || call.Common.IsInvoke() {
-			continue
-		}
-		if core.IsCallResult(call.Common.Value, -1, "(*aghnet.IPMut).Load") {
-			anonCall, _ = call.Instr.(*ssa.Call)
+	// The functions that make up the recording step: processQueryLogsAndStats and the unexported helpers of its
+	// package it calls (an address or identifier computation extracted into its own function is part of the step).
+	// logQuery and updateStats are the recorders themselves and are looked at separately below.
+	recorders := map[string]bool{"(*dnsforward.Server).logQuery": true, "(*dnsforward.Server).updateStats": true,
+		"(*dnsforward.Server).shouldLog": true, "(*dnsforward.Server).shouldCountStat": true}
+	step := []*ssa.Function{pq}
+	{
+		seen := map[*ssa.Function]bool{pq: true}
+		for i := 0; i < len(step) && i < 16; i++ {
+			for _, call := range core.Calls(step[i]) {
+				h := core.Callee(call.Common)
+				if h == nil || seen[h] || len(h.Blocks) == 0 || h.Pkg != pq.Pkg || h.Object() == nil || h.Object().Exported() || recorders[core.FuncKey(h)] {
+					continue
+				}
+				seen[h] = true
+				step = append(step, h)
+			}
 		}
 	}
-	if anonCall == nil {
-		r.Fail("C08-D2", "anonymiser-applied", p.FnPos(pq), "the loaded anonymiser is no longer applied in processQueryLogsAndStats: client addresses reach the log and the statistics unmasked")
+	seenCall := map[core.Call]bool{}
+	var stepCalls []core.Call
+	for _, f := range step {
+		for _, call := range core.Calls(f) {
+			if !seenCall[call] {
+				seenCall[call] = true
+				stepCalls = append(stepCalls, call)
+			}
+		}
+	}
+	callsIn := func(keys ...string) (cs []core.Call) {
+		for _, call := range stepCalls {
+			for _, k := range keys {
+				if call.Key == k {
+					cs = append(cs, call)
+				}
+			}
+		}
+		return cs
+	}
+	// the anonymiser call: dynamic call whose function value is the result of (*aghnet.IPMut).Load
+	var anonCall *ssa.Call
+	nAnon := 0
+	{
+		for _, call := range stepCalls {
+			if core.Callee(call.Common) != nil || call.Common.IsInvoke() {
+				continue
+			}
+			if core.IsCallResult(core.ResolveCellLoad(call.Common.Value), -1, "(*aghnet.IPMut).Load") {
+				if cc, ok := call.Instr.(*ssa.Call); ok {
+					anonCall = cc
+					nAnon++
+				}
+			}
+		}
+	}
+	if anonCall == nil || nAnon != 1 {
+		r.Fail("C08-D2", "anonymiser-applied", p.FnPos(pq), "the loaded anonymiser is no longer applied (exactly once) in processQueryLogsAndStats: client addresses reach the log and the statistics unmasked")
 		return
 	}
 	ipV := anonCall.Common().Args[0]
 	isAnon := func(in ssa.Instruction) bool { return in == ssa.Instruction(anonCall) }
 	for _, k := range []string{"(*dnsforward.Server).shouldLog", "(*dnsforward.Server).shouldCountStat", "(*dnsforward.Server).logQuery", "(*dnsforward.Server).updateStats", "(net.IP).String"} {
-		found, tr, _ := core.Reach(core.Query{From: []core.Point{core.Entry(pq)}, Target: core.IsCallTo(false, k), Avoid: isAnon})
+		// in every function of the step that makes such a call, the call comes after the anonymiser (which may run inside a helper called before)
+		found := false
+		var tr []*ssa.BasicBlock
+		for _, f := range step {
+			if len(core.CallsTo(f, k)) == 0 {
+				continue
+			}
+			if fnd, t, _ := core.Reach(core.Query{From: []core.Point{core.Entry(f)}, Target: core.IsCallTo(false, k), Avoid: isAnon}); fnd {
+				// inside a helper that receives the already anonymised address the order was settled by its caller
+				settled := false
+				if f != pq {
+					settled = true
+					for _, site := range p.StaticCallers(f) {
+						ci := p.CallInstr(site)
+						if ci == nil {
+							settled = false
+							continue
+						}
+						if f2, _, _ := core.Reach(core.Query{From: []core.Point{core.Entry(ci.Parent())}, Target: func(x ssa.Instruction) bool { return x == ssa.Instruction(ci) }, Avoid: isAnon}); f2 {
+							settled = false
+						}
+					}
+				}
+				if !settled {
+					found, tr = true, t
+				}
+			}
+		}
 		r.Check(!found, "C08-D2", "anonymise-before:"+k, p.InstrPos(anonCall),
 			"the anonymiser runs before "+k, k+" can run before the address was anonymised", p.TraceString(tr))
 	}
@@ -247,35 +368,57 @@ func c08Anonymise(c *Ctx, pq *ssa.Function) {
 			return v
 		}
 	}
-	for _, call := range core.CallsTo(pq, "(*dnsforward.Server).logQuery") {
-		r.Check(under(call.Arg(2)) == under(ipV), "C08-D2", "log-receives-anonymised-slice", p.InstrPos(call.Instr),
+	// is: every value v can stand for (through phis, helper results and helper parameters) is w
+	is := func(v, w ssa.Value) bool {
+		ls := core.Leaves(v)
+		for _, l := range ls {
+			same := false
+			for _, lw := range core.Leaves(w) {
+				if under(l) == under(lw) {
+					same = true
+				}
+			}
+			if !same {
+				return false
+			}
+		}
+		return len(ls) > 0
+	}
+	for _, call := range callsIn("(*dnsforward.Server).logQuery") {
+		r.Check(is(call.Arg(2), ipV), "C08-D2", "log-receives-anonymised-slice", p.InstrPos(call.Instr),
 			"the address given to the log is the slice the anonymiser was applied to", "the log receives an address other than the anonymised slice")
 	}
 	var ipStr ssa.Value
-	for _, call := range core.CallsTo(pq, "(net.IP).String") {
-		if under(call.Arg(0)) == under(ipV) {
+	for _, call := range callsIn("(net.IP).String") {
+		if is(call.Arg(0), ipV) {
 			ipStr = call.Instr.(*ssa.Call)
 		}
 	}
 	r.Check(ipStr != nil, "C08-D2", "address-string-from-anonymised-slice", p.FnPos(pq), "the address string is computed from the anonymised slice", "the address string is not computed from the anonymised slice")
-	for _, call := range core.CallsTo(pq, "(*dnsforward.Server).updateStats") {
+	for _, call := range callsIn("(*dnsforward.Server).updateStats") {
 		okS := ipStr != nil
-		if okS && call.Arg(2) != ipStr {
-			os := core.Origins(call.Arg(2), core.ProvOpts{Prog: p, Stop: func(v ssa.Value) string {
-				if v == ipStr {
-					return "anonymised-address"
-				}
-				return ""
-			}})
+		if okS && !is(call.Arg(2), ipStr) {
 			sawAddr := false
-			for _, o := range os {
-				switch {
-				case o.Kind == "stop":
+			for _, leaf := range core.Leaves(call.Arg(2)) {
+				if under(leaf) == ipStr {
 					sawAddr = true
-				case o.Kind == "field" && o.Key == "dnsforward.dnsContext.clientID":
-				case o.Kind == "const":
-				default:
-					okS = false
+					continue
+				}
+				os := core.Origins(leaf, core.ProvOpts{Prog: p, Stop: func(v ssa.Value) string {
+					if v == ipStr {
+						return "anonymised-address"
+					}
+					return ""
+				}})
+				for _, o := range os {
+					switch {
+					case o.Kind == "stop":
+						sawAddr = true
+					case o.Kind == "field" && o.Key == "dnsforward.dnsContext.clientID":
+					case o.Kind == "const":
+					default:
+						okS = false
+					}
 				}
 			}
 			okS = okS && sawAddr
@@ -285,14 +428,14 @@ func c08Anonymise(c *Ctx, pq *ssa.Function) {
 	}
 	// ids always contain the address string
 	for _, k := range []string{"(*dnsforward.Server).shouldLog", "(*dnsforward.Server).shouldCountStat"} {
-		for _, call := range core.CallsTo(pq, k) {
+		for _, call := range callsIn(k) {
 			ids := call.Arg(4)
 			okAll, n := true, 0
-			for _, leaf := range core.FlattenPhi(ids) {
+			for _, leaf := range core.Leaves(ids) {
 				n++
 				has := false
 				for _, el := range sliceLiteralElems(leaf) {
-					if el == ipStr {
+					if ipStr != nil && is(el, ipStr) {
 						has = true
 					}
 				}
